@@ -202,6 +202,12 @@ pub fn check_structure(spec: &SpecTable, input: &[u8], tags: &[TagV], clean_end:
     Ok(walked.iter().filter(|w| !w.tag.is_end()).count() >= 2)
 }
 
+/// Tag boundaries as an unbuffered slice run with closing off sees them.
+fn pause_bounds(rc: &ReadCase) -> Vec<usize> {
+    let unb = IterCfg { buffered: vec![], eof_end: false, capacity: None, ..rc.cfg.clone() };
+    crate::harness::slice_run(&rc.spec, &rc.input, &unb).ok_prefix().iter().filter(|(t, o)| !t.is_end() && *o > 0).map(|(_, o)| *o).collect()
+}
+
 impl Check for C06 {
     type Case = ReadCase;
     fn id(&self) -> &'static str {
@@ -251,13 +257,44 @@ impl Check for C06 {
         cfg.capacity = io::gen_capacity(&mut rng, bytes.len());
         crate::harness::gen_cfg_history(&mut rng, &mut cfg);
         let script = io::gen_rscript(&mut rng, bytes.len(), &[]);
-        ReadCase { spec, input: Arc::new(bytes), cfg, script, driver: Driver::UntilEnd { extra: 0 }, class }
+        // "any parse": one case in four asks for some masters as Full items (judged on their flattening), and one
+        // in eight is a streaming parse (closing off, temporary end-of-file reports at tag boundaries, the caller
+        // polling on and switching closing on once the source is exhausted)
+        cfg.buffered = cases::gen_buffered(&mut rng, &spec, 25);
+        let mut rc = ReadCase { spec, input: Arc::new(bytes), cfg, script, driver: Driver::UntilEnd { extra: 0 }, class };
+        if rng.chance(1, 8) && !rc.input.is_empty() {
+            let bounds = pause_bounds(&rc);
+            if !bounds.is_empty() {
+                rc.cfg.eof_end = false;
+                rc.driver = Driver::StreamingThenClose;
+                for _ in 0..rng.range(1, 4) {
+                    let b = *rng.pick(&bounds);
+                    for _ in 0..rng.range(1, 2) {
+                        rc.script.pauses.push(b);
+                    }
+                }
+            }
+        }
+        rc
     }
 
     fn exec(&self, rc: &ReadCase, st: &mut Stats) -> Result<ExecOk, Fail> {
-        if rc.cfg.allow != 0 || !rc.cfg.buffered.is_empty() || !rc.cfg.eof_end {
+        let streaming = matches!(rc.driver, Driver::StreamingThenClose);
+        if rc.cfg.allow != 0 || (!rc.cfg.eof_end && !streaming) || (!streaming && !rc.script.pauses.is_empty()) {
             st.inc("out_of_scope");
             return Ok(ExecOk { nontrivial: false });
+        }
+        if streaming {
+            // temporary end of file is in scope at tag boundaries only (matters for shrunk cases)
+            let bounds = pause_bounds(rc);
+            if rc.script.pauses.iter().any(|p| !bounds.contains(p)) {
+                st.inc("out_of_scope");
+                return Ok(ExecOk { nontrivial: false });
+            }
+            st.inc("streaming_runs");
+        }
+        if !rc.cfg.buffered.is_empty() {
+            st.inc("runs_with_buffered_masters");
         }
         let n = rc.input.len();
         let tr = run_reader(&rc.spec, &ReaderSetup { input: rc.input.clone(), virtual_tail: 0, cfg: &rc.cfg, script: &rc.script, driver: &rc.driver, max_steps: 4 * n + 64, keep_read_log: false });
@@ -275,7 +312,7 @@ impl Check for C06 {
             st.inc("skipped_not_total");
             return Ok(ExecOk { nontrivial: false });
         }
-        let tags: Vec<TagV> = tr.ok_prefix().into_iter().map(|(t, _)| t).collect();
+        let tags: Vec<TagV> = crate::val::flatten(&tr.ok_prefix().into_iter().map(|(t, _)| t).collect::<Vec<_>>());
         let clean = matches!(tr.evs.last(), Some(Ev::None)) && tr.first_error().is_none();
         if clean {
             st.inc("clean_ends");
@@ -299,7 +336,7 @@ impl Check for C06 {
         c.shrink(true)
     }
     fn rule(&self) -> &'static str {
-        "One case = specification + bytes (valid documents mixing known- and unknown-size masters; the same with one structure-preserving fault placed via the layout: id substitution, size change, size→unknown marker, whole element moved or duplicated; byte-faulted; documents cut to start at an inner element) read in strict mode under a random delivery schedule. The successful items are replayed against an independent nesting / declared-path (NFA) / extent checker. Non-trivial: at least two non-End items were emitted and checked. Distinct: FNV-1a fingerprint of bytes + schedule."
+        "One case = specification + bytes (valid documents mixing known- and unknown-size masters; the same with one structure-preserving fault placed via the layout: id substitution, size change, size→unknown marker, whole element moved or duplicated; byte-faulted; documents cut to start at an inner element) read in strict mode under a random delivery schedule; one case in four with some masters requested as Full items (judged on their flattening), one in eight as a streaming parse (closing off, temporary end-of-file reports at tag boundaries, closing switched on once the source is exhausted). The successful items are replayed against an independent nesting / declared-path (NFA) / extent checker. Non-trivial: at least two non-End items were emitted and checked. Distinct: FNV-1a fingerprint of bytes + schedule."
     }
     fn assumptions(&self) -> Vec<&'static str> {
         vec![
@@ -309,6 +346,6 @@ impl Check for C06 {
         ]
     }
     fn expected_probes(&self) -> Vec<&'static str> {
-        vec!["probe_known_size_end", "probe_unknown_size_end", "probe_implied_ancestor_end", "probe_mid_document_start", "fault_element_moved", "fault_id_substitution", "clean_ends", "error_ends"]
+        vec!["probe_known_size_end", "probe_unknown_size_end", "probe_implied_ancestor_end", "probe_mid_document_start", "fault_element_moved", "fault_id_substitution", "clean_ends", "error_ends", "streaming_runs", "runs_with_buffered_masters"]
     }
 }
